@@ -34,6 +34,7 @@ type harnessRun struct {
 	err       string
 	validated int
 	mismatch  []string
+	otherProp map[string]int
 }
 
 type replayCase struct {
@@ -181,7 +182,7 @@ func (c *Check) Run(sel []HarnessDef) int {
 		if c.Tier == "thorough" {
 			tc = mergeTier(h.Quick, h.Thorough)
 		}
-		hr := &harnessRun{def: h, tc: tc}
+		hr := &harnessRun{def: h, tc: tc, otherProp: map[string]int{}}
 		runs = append(runs, hr)
 		pkg := ld.Pkgs[module+"/"+h.Pkg]
 		if pkg == nil {
@@ -324,6 +325,7 @@ func packageName(src []byte) string {
 
 type replayFile struct {
 	Harness string            `json:"harness"`
+	Entry   string            `json:"entry"`
 	Model   map[string]string `json:"model"`
 	Params  map[string]int    `json:"params"`
 	Expect  struct {
@@ -350,6 +352,10 @@ func (c *Check) prepareReplays(runs []*harnessRun) {
 		for _, r := range hr.ex.Results {
 			switch r.Kind {
 			case "violation":
+				if hr.def.labelProp(r.Label) != c.Prop {
+					hr.otherProp[hr.def.labelProp(r.Label)]++
+					continue
+				}
 				sig := signature(hr.def.Name, r)
 				seen[sig]++
 				if seen[sig] <= 2 && len(seen) <= 8 {
@@ -384,6 +390,7 @@ func (c *Check) prepareReplays(runs []*harnessRun) {
 		for _, rc := range hr.replays {
 			var rf replayFile
 			rf.Harness = hr.def.Name
+			rf.Entry = hr.def.Entry
 			rf.Property = c.Prop
 			rf.Model = rc.res.Model
 			if rf.Model == nil {
@@ -561,6 +568,9 @@ func (c *Check) verdict(runs []*harnessRun, ld *gosym.Loaded, loadS float64) int
 			"violating_paths": st.Violations + st.Hang, "wall_s": st.Wall.Seconds(), "covers": st.Covers, "outside_claim": hr.def.Outside}
 		harnessInfo = append(harnessInfo, hinfo)
 
+		for p, n := range hr.otherProp {
+			notes = append(notes, fmt.Sprintf("NOTE %s: %d path(s) ended in an assertion that belongs to property %s (reported by that property's check)", hr.def.Name, n, p))
+		}
 		// vacuity
 		if len(hr.missing) > 0 && hr.def.Expect != "violation" {
 			notes = append(notes, fmt.Sprintf("BROKEN %s: cover labels never reached: %v", hr.def.Name, hr.missing))
@@ -605,6 +615,27 @@ func (c *Check) verdict(runs []*harnessRun, ld *gosym.Loaded, loadS float64) int
 				if nr == nil {
 					hr.mismatch = append(hr.mismatch, "no native result for "+rc.path)
 					continue
+				}
+				if nr.Kind == "violation" && nr.Label != "" && hr.def.labelProp(nr.Label) == c.Prop {
+					// the real build violated an oracle on a model the engine considered fine
+					// (possible under a different goroutine schedule): that is a confirmed violation
+					sig := hr.def.Name + "/" + nr.Label + "/native"
+					isKnown := false
+					for _, kf := range known {
+						if kf.prop == c.Prop && sigMatch(kf.sig, sig) {
+							isKnown = true
+						}
+					}
+					if !isKnown && !sigDone[sig] {
+						sigDone[sig] = true
+						violations++
+						violLines = append(violLines, fmt.Sprintf("VIOLATION property=%s replay=%s", c.Prop, rc.path))
+						notes = append(notes, fmt.Sprintf("  %s: native run of a sampled model violated %s", hr.def.Name, nr.Label))
+					}
+					continue
+				}
+				if nr.Kind == "violation" && nr.Label != "" {
+					continue // belongs to another property
 				}
 				if nr.Kind != "ok" || !sameObs(nr.Observes, rc.res.Observes) {
 					hr.mismatch = append(hr.mismatch, fmt.Sprintf("translator mismatch on %s: native kind=%s label=%s msg=%s obs=%v, engine obs=%v", rc.path, nr.Kind, nr.Label, nr.Msg, nr.Observes, rc.res.Observes))
